@@ -10,7 +10,7 @@ import sys
 VERIF = os.path.dirname(os.path.dirname(os.path.abspath(__file__)))
 tag = sys.argv[1]
 for prop in sys.argv[2:]:
-    src = "/tmp/wt4-%s/seeded" % prop
+    src = "/tmp/wt%s-%s/seeded" % (os.environ.get("SEED_ROUND", "4"), prop)
     for d in sorted(os.listdir(src)):
         if not d.startswith(prop + tag + "-"):
             continue
